@@ -163,7 +163,7 @@ theorem keys_monotone_recv (env : Env) (line : Str) (w : W) (k : Int) (h : w.st.
 
 theorem keys_monotone_send (obj : Option Msg) (b : Bool) (w : W) (k : Int) (h : w.st.nodes.has k = true) :
     (apiSend obj b w).2.st.nodes.has k = true :=
-  (rel_apiSend (keysGrow_stepRel default) (fun _ => nodes_same fun _ => rfl) obj b).step w k h
+  (rel_apiSend (keysGrow_stepRel default) (fun _ _ => nodes_same fun _ => rfl) obj b).step w k h
 
 theorem keys_monotone_history (ops : List Op) (st : St) (k : Int) (h : st.nodes.has k = true) :
     (stateAfter st ops).nodes.has k = true := by
